@@ -363,6 +363,17 @@ class PathFacade:
     def abspath(self, p):
         return posixpath.normpath(self._fs._abs(p))
 
+    def relpath(self, path, start=None):
+        a = posixpath.normpath(self._fs._abs(path))
+        b = posixpath.normpath(self._fs._abs(start if start is not None else self._fs.cwd))
+        return posixpath.relpath(a, b)
+
+    def commonpath(self, paths):
+        return posixpath.commonpath([posixpath.normpath(self._fs._abs(p)) for p in paths])
+
+    def expanduser(self, p):
+        return p
+
 
 class OsFacade:
     """Stands for the module `os` inside dds.store."""
